@@ -23,14 +23,18 @@ NonEmptySeps == Seps \ {<<>>}
 
 VARIABLES out,      \* bytes emitted so far
           todo,     \* work stack (sequence, head first)
-          offs,     \* object number -> byte offset of its "n g obj" header (relative to %PDF-)
-          plan      \* the file being produced: [doc, knobs] (constant during a behaviour)
+          offs,     \* objects written in the current revision: number -> [off, gen] (offset of "n g obj" relative to %PDF-)
+          plan,     \* the file being produced: [doc, k (knobs), ri (revision), xrefoff, prevxref, cuts]
+          outer,    \* while an object-stream body is being produced: the file bytes emitted before it
+          moffs     \* ... and the offsets of its members so far, <<[num, off]>>
 
-pvars == <<out, todo, offs, plan>>
+pvars == <<out, todo, offs, plan, outer, moffs>>
 
-Tok(b)  == [w |-> "tok", b |-> b]
+Tok(b)  == [w |-> "tok", b |-> b, ns |-> FALSE]
+TokN(b, ns) == [w |-> "tok", b |-> b, ns |-> ns]      \* ns: no separator may precede this token
 Raw(b)  == [w |-> "raw", b |-> b]
-Val(v)  == [w |-> "val", v |-> v]
+Val(v)  == [w |-> "val", v |-> v, ns |-> FALSE]
+ValN(v) == [w |-> "val", v |-> v, ns |-> TRUE]
 Top1    == todo[1]
 Rest    == Tail(todo)
 
@@ -43,50 +47,69 @@ EmitTok ==
     /\ todo # <<>> /\ Top1.w = "tok"
     /\ \E sep \in Seps :
           /\ (NeedSep(out, Top1.b) => sep # <<>>)
+          /\ (Top1.ns => sep = <<>>)
           /\ out' = out \o sep \o Top1.b
-    /\ todo' = Rest /\ UNCHANGED <<offs, plan>>
+    /\ todo' = Rest /\ UNCHANGED <<offs, plan, outer, moffs>>
 
 EmitRaw ==
     /\ todo # <<>> /\ Top1.w = "raw"
     /\ out' = out \o Top1.b
-    /\ todo' = Rest /\ UNCHANGED <<offs, plan>>
+    /\ todo' = Rest /\ UNCHANGED <<offs, plan, outer, moffs>>
 
 IsVal(kind) == todo # <<>> /\ Top1.w = "val" /\ Top1.v.k = kind
 
-XNull == IsVal("null") /\ todo' = <<Tok(KwNull)>> \o Rest /\ UNCHANGED <<out, offs, plan>>
-XBool == IsVal("bool") /\ todo' = <<Tok(IF Top1.v.v THEN KwTrue ELSE KwFalse)>> \o Rest /\ UNCHANGED <<out, offs, plan>>
-XInt  == IsVal("int")  /\ \E st \in IntStyles : todo' = <<Tok(IntSpell(Top1.v, st))>> \o Rest
-                       /\ UNCHANGED <<out, offs, plan>>
-XReal == IsVal("real") /\ \E st \in RealStyles : todo' = <<Tok(RealSpell(Top1.v, st))>> \o Rest
-                       /\ UNCHANGED <<out, offs, plan>>
-XName == IsVal("name") /\ \E st \in NameStyles : todo' = <<Tok(NameSpell(Top1.v.v, st))>> \o Rest
-                       /\ UNCHANGED <<out, offs, plan>>
-XLit  == IsVal("str")  /\ \E st \in LitStyles : LitStyleOk(Top1.v.v, st) /\ todo' = <<Tok(LitSpell(Top1.v.v, st))>> \o Rest
-                       /\ UNCHANGED <<out, offs, plan>>
-XHex  == IsVal("str")  /\ \E st \in HexStyles : todo' = <<Tok(HexSpell(Top1.v.v, st))>> \o Rest
-                       /\ UNCHANGED <<out, offs, plan>>
-XRef  == IsVal("ref")  /\ todo' = <<Tok(AsciiDigits(Top1.v.v)), Tok(AsciiDigits(Top1.v.w)), Tok(KwR)>> \o Rest
-                       /\ UNCHANGED <<out, offs, plan>>
-XArr  == IsVal("arr")  /\ todo' = <<Tok(<<91>>)>> \o [i \in 1..Len(Top1.v.v) |-> Val(Top1.v.v[i])] \o <<Tok(<<93>>)>> \o Rest
-                       /\ UNCHANGED <<out, offs, plan>>
+XNull == IsVal("null") /\ todo' = <<TokN(KwNull, Top1.ns)>> \o Rest /\ UNCHANGED <<out, offs, plan, outer, moffs>>
+XBool == IsVal("bool") /\ todo' = <<TokN(IF Top1.v.v THEN KwTrue ELSE KwFalse, Top1.ns)>> \o Rest /\ UNCHANGED <<out, offs, plan, outer, moffs>>
+XInt  == IsVal("int")  /\ \E st \in IntStyles : todo' = <<TokN(IntSpell(Top1.v, st), Top1.ns)>> \o Rest
+                       /\ UNCHANGED <<out, offs, plan, outer, moffs>>
+XReal == IsVal("real") /\ \E st \in RealStyles : todo' = <<TokN(RealSpell(Top1.v, st), Top1.ns)>> \o Rest
+                       /\ UNCHANGED <<out, offs, plan, outer, moffs>>
+XName == IsVal("name") /\ \E st \in NameStyles : todo' = <<TokN(NameSpell(Top1.v.v, st), Top1.ns)>> \o Rest
+                       /\ UNCHANGED <<out, offs, plan, outer, moffs>>
+XLit  == IsVal("str")  /\ \E st \in LitStyles : LitStyleOk(Top1.v.v, st) /\ todo' = <<TokN(LitSpell(Top1.v.v, st), Top1.ns)>> \o Rest
+                       /\ UNCHANGED <<out, offs, plan, outer, moffs>>
+XHex  == IsVal("str")  /\ \E st \in HexStyles : todo' = <<TokN(HexSpell(Top1.v.v, st), Top1.ns)>> \o Rest
+                       /\ UNCHANGED <<out, offs, plan, outer, moffs>>
+XRef  == IsVal("ref")  /\ todo' = <<TokN(AsciiDigits(Top1.v.v), Top1.ns), Tok(AsciiDigits(Top1.v.w)), Tok(KwR)>> \o Rest
+                       /\ UNCHANGED <<out, offs, plan, outer, moffs>>
+XArr  == IsVal("arr")  /\ todo' = <<TokN(<<91>>, Top1.ns)>> \o [i \in 1..Len(Top1.v.v) |-> Val(Top1.v.v[i])] \o <<Tok(<<93>>)>> \o Rest
+                       /\ UNCHANGED <<out, offs, plan, outer, moffs>>
 
 DictItems(d, keys) == Concat([i \in 1..Len(keys) |-> <<Val(OName(keys[i])), Val(d[keys[i]])>>])
 
 XDict == IsVal("dict") /\ \E rev \in BOOLEAN :
                             LET keys == IF rev THEN Reverse(SetToSeq(DOMAIN Top1.v.v)) ELSE SetToSeq(DOMAIN Top1.v.v)
-                            IN todo' = <<Tok(<<60, 60>>)>> \o DictItems(Top1.v.v, keys) \o <<Tok(<<62, 62>>)>> \o Rest
-                       /\ UNCHANGED <<out, offs, plan>>
+                            IN todo' = <<TokN(<<60, 60>>, Top1.ns)>> \o DictItems(Top1.v.v, keys) \o <<Tok(<<62, 62>>)>> \o Rest
+                       /\ UNCHANGED <<out, offs, plan, outer, moffs>>
 
 ObjectNext == EmitTok \/ EmitRaw \/ XNull \/ XBool \/ XInt \/ XReal \/ XName \/ XLit \/ XHex \/ XRef \/ XArr \/ XDict
 
 -----------------------------------------------------------------------------
-(* File level.  plan.doc = [version, binmark, objs |-> <<[num, gen, val]>>, trailer |-> map]     *)
-(* plan.k = knobs: [order, xref \in {"table1","tableN","stream"}, w, eeol, junk, bin, slack, fin, lenind] *)
+(* File level.                                                                                  *)
+(* plan.doc = [version, binmark, revs |-> << [objs |-> <<[num, gen, val]>>,                      *)
+(*                                             comp |-> <<[cnum, members |-> <<[num, val]>>]>>, *)
+(*                                             trailer |-> map] >>]                              *)
+(* Revision 1 is the original file, every further revision an incremental update (7.5.6).        *)
+(* comp lists object streams: their members are written inside an ObjStm when the file uses      *)
+(* cross-reference streams, and as ordinary objects when it uses cross-reference tables.         *)
+(* plan.k = knobs [order, xref \in {"table1","tableN","stream1","streamN"}, w, junk, junkbytes,  *)
+(*                 bin, slack, noindex]                                                          *)
 
 Doc == plan.doc
 K == plan.k
+Cur == Doc.revs[plan.ri]
+UseComp(k) == k.xref \in {"stream1", "streamN"}
 
-\* the stream dictionary as written: Length added (direct, or a reference to object lenobj)
+\* every object number mentioned anywhere in the document (fresh numbers are taken above it)
+AllNums(doc) ==
+    UNION {{doc.revs[r].objs[i].num : i \in 1..Len(doc.revs[r].objs)}
+           \cup UNION {{doc.revs[r].comp[c].cnum} \cup {doc.revs[r].comp[c].members[m].num : m \in 1..Len(doc.revs[r].comp[c].members)}
+                       : c \in 1..Len(doc.revs[r].comp)}
+           : r \in 1..Len(doc.revs)}
+MaxAll(doc) == LET S == AllNums(doc) IN IF S = {} THEN 0 ELSE CHOOSE n \in S : \A m \in S : m <= n
+SelfNum(doc, r) == MaxAll(doc) + r                   \* number of revision r's XRef stream object
+
+\* the stream dictionary as written: Length added unless the document already carries one
 StreamDictWritten(o, lenref) ==
     IF Has(o.val.v, NameLength) THEN o.val.v     \* e.g. a reference to an integer object of the document
     ELSE MapPut(o.val.v, NameLength, NatObj(Len(o.val.w)))
@@ -105,9 +128,10 @@ ObjHdr ==
           /\ (NeedSep(out, <<48>>) => sep # <<>>)
           /\ (Top1.nosep => sep = <<>>)
           /\ out' = out \o sep \o AsciiDigits(Top1.num)
-          /\ offs' = [n \in DOMAIN offs \cup {Top1.num} |-> IF n = Top1.num THEN Len(out \o sep) - K.junk ELSE offs[n]]
+          /\ offs' = [n \in DOMAIN offs \cup {Top1.num} |->
+                        IF n = Top1.num THEN [off |-> Len(out \o sep) - K.junk, gen |-> Top1.gen] ELSE offs[n]]
     /\ todo' = <<Tok(AsciiDigits(Top1.gen)), Tok(KwObj)>> \o Rest
-    /\ UNCHANGED plan
+    /\ UNCHANGED <<plan, outer, moffs>>
 
 \* "stream" EOL data [EOL] "endstream"   (7.3.8.1: CRLF or LF after the keyword)
 StreamData ==
@@ -115,22 +139,57 @@ StreamData ==
     /\ \E sep \in Seps, e1 \in {<<10>>, <<13, 10>>}, e2 \in EOLs \cup {<<>>} :
           /\ (NeedSep(out, KwStream) => sep # <<>>)
           /\ out' = out \o sep \o KwStream \o e1 \o Top1.c \o e2 \o KwEndstream
-    /\ todo' = Rest /\ UNCHANGED <<offs, plan>>
+    /\ todo' = Rest /\ UNCHANGED <<offs, plan, outer, moffs>>
 
 Header ==
     /\ todo # <<>> /\ Top1.w = "header"
     /\ \E e \in EOLs, e2 \in EOLs :
           out' = out \o PctPDF \o Doc.version \o e \o
                  (IF K.bin THEN <<37>> \o Doc.binmark \o e2 ELSE <<>>)
+    /\ todo' = Rest /\ UNCHANGED <<offs, plan, outer, moffs>>
+
+\* a new revision begins: nothing written in it yet
+RevStart ==
+    /\ todo # <<>> /\ Top1.w = "revstart"
+    /\ offs' = EmptyMap
+    /\ plan' = [plan EXCEPT !.ri = Top1.r]
+    /\ todo' = Rest /\ UNCHANGED <<out, outer, moffs>>
+
+-----------------------------------------------------------------------------
+(* Object streams (7.5.7): the members are spelled by the Producer itself into a separate buffer *)
+
+CStart ==
+    /\ todo # <<>> /\ Top1.w = "cstart"
+    /\ outer' = out /\ out' = <<>> /\ moffs' = <<>>
     /\ todo' = Rest /\ UNCHANGED <<offs, plan>>
+
+CMember ==
+    /\ todo # <<>> /\ Top1.w = "cmember"
+    /\ \E sep \in Seps :
+          /\ (out # <<>> => sep # <<>>)               \* members are separated by white-space
+          /\ out' = out \o sep
+          /\ moffs' = Append(moffs, [num |-> Top1.num, off |-> Len(out \o sep)])
+    /\ todo' = <<ValN(Top1.v)>> \o Rest /\ UNCHANGED <<offs, plan, outer>>
+
+CEnd ==
+    /\ todo # <<>> /\ Top1.w = "cend"
+    /\ \E hs \in {<<32>>, <<10>>, <<13, 10>>}, tail \in {<<>>, <<10>>} :
+          LET header == Concat([i \in 1..Len(moffs) |-> AsciiDigits(moffs[i].num) \o <<32>> \o AsciiDigits(moffs[i].off) \o hs])
+              content == header \o out \o tail
+              d == (NameType :> OName(NameObjStm)) @@ (NameN :> NatObj(Len(moffs))) @@ (NameFirst :> NatObj(Len(header)))
+          IN todo' = ObjItems([num |-> Top1.cnum, gen |-> 0, val |-> OStream(d, content)], 0) \o Rest
+    /\ out' = outer /\ outer' = <<>> /\ moffs' = <<>>
+    /\ UNCHANGED <<offs, plan>>
+
+-----------------------------------------------------------------------------
+(* Cross-reference sections *)
 
 \* one 20-byte cross-reference entry
 Pad(d, n) == [i \in 1..(n - Len(d)) |-> 48] \o DigitBytes(d)
 Entry(off, gen, inuse, eeol) ==
     Pad(NatDigits(off), 10) \o <<32>> \o Pad(NatDigits(gen), 5) \o <<32>> \o (IF inuse THEN KwN ELSE KwF) \o eeol
 
-GenOf(num) == LET i == SelectInSeq(Doc.objs, LAMBDA o : o.num = num) IN Doc.objs[i].gen
-Nums == {Doc.objs[i].num : i \in 1..Len(Doc.objs)}
+Nums == DOMAIN offs                                  \* objects written in this revision
 MaxNum == IF Nums = {} THEN 0 ELSE CHOOSE n \in Nums : \A m \in Nums : m <= n
 
 \* maximal runs of consecutive numbers in a set, as a sequence of <<first, count>>
@@ -140,81 +199,111 @@ Runs(S) ==
         runLen(a) == CHOOSE k \in 1..Cardinality(S) : (\A j \in 0..(k - 1) : a + j \in S) /\ (a + k \notin S)
     IN [i \in 1..Len(seqStarts) |-> <<seqStarts[i], runLen(seqStarts[i])>>]
 
+First == plan.ri = 1
+
 XrefTable ==
     /\ todo # <<>> /\ Top1.w = "xreftable"
     /\ \E e0 \in EOLs, e1 \in EOLs, ee \in {<<32, 10>>, <<32, 13>>, <<13, 10>>} :
-          LET entry(n) == IF n \in Nums THEN Entry(offs[n], GenOf(n), TRUE, ee)
+          LET entry(n) == IF n \in Nums THEN Entry(offs[n].off, offs[n].gen, TRUE, ee)
                           ELSE Entry(0, IF n = 0 THEN 65535 ELSE 0, FALSE, ee)
               one == AsciiDigits(0) \o <<32>> \o AsciiDigits(MaxNum + 1) \o e1 \o
                      Concat([n \in 1..(MaxNum + 1) |-> entry(n - 1)])
-              runs == Runs(Nums \cup {0})
+              runs == Runs(IF First THEN Nums \cup {0} ELSE Nums)
               many == Concat([r \in 1..Len(runs) |->
                          AsciiDigits(runs[r][1]) \o <<32>> \o AsciiDigits(runs[r][2]) \o e1 \o
                          Concat([j \in 1..runs[r][2] |-> entry(runs[r][1] + j - 1)])])
-          IN out' = out \o KwXref \o e0 \o (IF K.xref = "table1" THEN one ELSE many)
-    /\ todo' = Rest /\ UNCHANGED <<offs, plan>>
+          IN out' = out \o KwXref \o e0 \o (IF K.xref = "table1" /\ First THEN one ELSE many)
+    /\ todo' = Rest /\ UNCHANGED <<offs, plan, outer, moffs>>
 
-\* where the cross-reference section starts is remembered in offs[-1] style slot: we use a dedicated item
-XrefStart ==      \* record the offset of the upcoming "xref" keyword or XRef stream object
+\* remember where the upcoming cross-reference section starts (the separator is emitted here)
+XrefStart ==
     /\ todo # <<>> /\ Top1.w = "markxref"
     /\ \E sep \in NonEmptySeps :
           /\ out' = out \o sep
           /\ plan' = [plan EXCEPT !.xrefoff = Len(out \o sep) - K.junk]
-    /\ todo' = Rest /\ UNCHANGED offs
+    /\ todo' = Rest /\ UNCHANGED <<offs, outer, moffs>>
 
-TrailerDict == MapPut(Doc.trailer, NameSize, NatObj(MaxNum + 1 + K.slack))
+SizeVal == MaxAll(Doc) + Len(Doc.revs) + 1 + K.slack
+
+TrailerOf(r) ==
+    LET t0 == MapPut(Doc.revs[r].trailer, NameSize, NatObj(SizeVal))
+    IN IF r = 1 THEN t0 ELSE MapPut(t0, NamePrev, NatObj(plan.prevxref))
+
+TrailerItems ==
+    /\ todo # <<>> /\ Top1.w = "trailer"
+    /\ todo' = <<Tok(KwTrailer), Val(ODict(TrailerOf(plan.ri)))>> \o Rest
+    /\ UNCHANGED <<out, offs, plan, outer, moffs>>
 
 StartXref ==
     /\ todo # <<>> /\ Top1.w = "startxref"
     /\ \E sep \in NonEmptySeps, e1 \in EOLs, e2 \in EOLs, fin \in EOLs \cup {<<>>} :
-          out' = out \o sep \o KwStartxref \o e1 \o AsciiDigits(plan.xrefoff) \o e2 \o PctPctEOF \o fin
-    /\ todo' = Rest /\ UNCHANGED <<offs, plan>>
+          \* %%EOF is a comment: an update appended after it must start on a new line
+          /\ (plan.ri < Len(Doc.revs) => fin # <<>>)
+          /\ out' = out \o sep \o KwStartxref \o e1 \o AsciiDigits(plan.xrefoff) \o e2 \o PctPctEOF \o fin
+          /\ plan' = [plan EXCEPT !.prevxref = plan.xrefoff, !.cuts = Append(@, Len(out'))]
+    /\ todo' = Rest /\ UNCHANGED <<offs, outer, moffs>>
 
 \* big-endian field of width n
 BE(x, n) == [i \in 1..n |-> IF n - i >= 4 THEN 0 ELSE (x \div (256 ^ (n - i))) % 256]   \* x < 2^31
 
-\* the XRef stream object (7.5.8): all objects of Doc plus itself; rows per K.w
+\* members of the object streams of the current revision: <<[num, cnum, idx]>>
+CompEntries ==
+    IF ~UseComp(K) THEN <<>>
+    ELSE Concat([c \in 1..Len(Cur.comp) |->
+            [m \in 1..Len(Cur.comp[c].members) |-> [num |-> Cur.comp[c].members[m].num, cnum |-> Cur.comp[c].cnum, idx |-> m - 1]]])
+
+\* the XRef stream object (7.5.8): objects of this revision, compressed members, itself; rows per K.w
 XrefStreamObj ==
     /\ todo # <<>> /\ Top1.w = "xrefstream"
-    /\ LET self == MaxNum + 1
+    /\ LET self == SelfNum(Doc, plan.ri)
            w == K.w
-           all == Nums \cup {self} \cup (IF w[1] = 0 THEN {} ELSE {0})
-           offOf(n) == IF n = self THEN plan.xrefoff ELSE offs[n]
-           genOf(n) == IF n = self THEN 0 ELSE GenOf(n)
+           ce == CompEntries
+           cnums == {ce[i].num : i \in 1..Len(ce)}
+           all == Nums \cup {self} \cup cnums \cup (IF w[1] = 0 \/ ~First THEN {} ELSE {0})
            row(n) == IF n = 0 THEN BE(0, w[1]) \o BE(0, w[2]) \o BE(IF w[3] >= 2 THEN 65535 ELSE 0, w[3])
-                     ELSE BE(1, w[1]) \o BE(offOf(n), w[2]) \o BE(genOf(n), w[3])
-           runs == IF K.xref = "stream1" /\ w[1] # 0
+                     ELSE IF n = self THEN BE(1, w[1]) \o BE(plan.xrefoff, w[2]) \o BE(0, w[3])
+                     ELSE IF n \in cnums
+                          THEN LET e == ce[SelectInSeq(ce, LAMBDA x : x.num = n)] IN BE(2, w[1]) \o BE(e.cnum, w[2]) \o BE(e.idx, w[3])
+                     ELSE BE(1, w[1]) \o BE(offs[n].off, w[2]) \o BE(offs[n].gen, w[3])
+           runs == IF K.xref = "stream1" /\ w[1] # 0 /\ First
                    THEN <<<<0, self + 1>>>>                                   \* one range, gaps as free entries
                    ELSE Runs(all)
-           inRuns == UNION {{runs[r][1] + j : j \in 0..(runs[r][2] - 1)} : r \in 1..Len(runs)}
            rowOrFree(n) == IF n \in all THEN row(n) ELSE BE(0, w[1]) \o BE(0, w[2]) \o BE(0, w[3])
            data == Concat([r \in 1..Len(runs) |-> Concat([j \in 1..runs[r][2] |-> rowOrFree(runs[r][1] + j - 1)])])
            index == OArr(Concat([r \in 1..Len(runs) |-> <<NatObj(runs[r][1]), NatObj(runs[r][2])>>]))
-           d0 == MapPut(MapPut(MapPut(Doc.trailer, NameType, OName(NameXRef)), NameSize, NatObj(self + 1 + K.slack)),
+           d0 == MapPut(MapPut(TrailerOf(plan.ri), NameType, OName(NameXRef)),
                         NameW, OArr(<<NatObj(w[1]), NatObj(w[2]), NatObj(w[3])>>))
-           d1 == IF runs = <<<<0, self + 1>>>> /\ K.slack = 0 /\ K.noindex THEN d0 ELSE MapPut(d0, NameIndex, index)
+           d1 == IF runs = <<<<0, SizeVal>>>> /\ K.noindex THEN d0 ELSE MapPut(d0, NameIndex, index)
            items == ObjItems([num |-> self, gen |-> 0, val |-> OStream(d1, data)], 0)
        IN todo' = <<[items[1] EXCEPT !.nosep = TRUE]>> \o Tail(items) \o Rest
-    /\ UNCHANGED <<out, offs, plan>>
+    /\ UNCHANGED <<out, offs, plan, outer, moffs>>
 
-\* for the xref stream object the recorded xrefoff must be the header offset: ObjHdr picks the separator,
-\* so the stream object's items are preceded by a "markxref" that emits the separator itself and the
-\* header follows with an empty separator (NeedSep false after white-space).
+FileNext == ObjectNext \/ ObjHdr \/ StreamData \/ Header \/ RevStart \/ CStart \/ CMember \/ CEnd
+            \/ XrefTable \/ XrefStart \/ TrailerItems \/ StartXref \/ XrefStreamObj
 
-FileNext == ObjectNext \/ ObjHdr \/ StreamData \/ Header \/ XrefTable \/ XrefStart \/ StartXref \/ XrefStreamObj
+\* the work items of revision r
+RevItems(doc, k, r) ==
+    LET rev == doc.revs[r]
+        objs == IF k.order = "desc" THEN Reverse(rev.objs) ELSE rev.objs
+        plainMembers == Concat([c \in 1..Len(rev.comp) |->
+                          Concat([m \in 1..Len(rev.comp[c].members) |->
+                             ObjItems([num |-> rev.comp[c].members[m].num, gen |-> 0, val |-> rev.comp[c].members[m].val], 0)])])
+        containers == Concat([c \in 1..Len(rev.comp) |->
+                          <<[w |-> "cstart"]>> \o
+                          [m \in 1..Len(rev.comp[c].members) |-> [w |-> "cmember", num |-> rev.comp[c].members[m].num, v |-> rev.comp[c].members[m].val]] \o
+                          <<[w |-> "cend", cnum |-> rev.comp[c].cnum]>>])
+    IN <<[w |-> "revstart", r |-> r]>> \o
+       Concat([i \in 1..Len(objs) |-> ObjItems(objs[i], 0)]) \o
+       (IF UseComp(k) THEN containers ELSE plainMembers) \o
+       <<[w |-> "markxref"]>> \o
+       (IF UseComp(k) THEN <<[w |-> "xrefstream"]>> ELSE <<[w |-> "xreftable"], [w |-> "trailer"]>>) \o
+       <<[w |-> "startxref"]>>
 
 \* the initial work stack of a whole file
 FilePlan(doc, k) ==
-    LET objs == IF k.order = "desc" THEN Reverse(doc.objs) ELSE doc.objs
-        lenref(o) == 0
-    IN (IF k.junk > 0 THEN <<Raw(k.junkbytes)>> ELSE <<>>) \o
-       <<[w |-> "header"]>> \o
-       Concat([i \in 1..Len(objs) |-> ObjItems(objs[i], lenref(objs[i]))]) \o
-       <<[w |-> "markxref"]>> \o
-       (IF k.xref \in {"table1", "tableN"}
-        THEN <<[w |-> "xreftable"], Tok(KwTrailer), Val(ODict(MapPut(doc.trailer, NameSize, NatObj(
-                  (IF doc.objs = <<>> THEN 0 ELSE
-                      LET ns == {doc.objs[i].num : i \in 1..Len(doc.objs)} IN CHOOSE n \in ns : \A m \in ns : m <= n) + 1 + k.slack))))>>
-        ELSE <<[w |-> "xrefstream"]>>) \o
-       <<[w |-> "startxref"]>>
+    (IF k.junk > 0 THEN <<Raw(k.junkbytes)>> ELSE <<>>) \o
+    <<[w |-> "header"]>> \o
+    Concat([r \in 1..Len(doc.revs) |-> RevItems(doc, k, r)])
+
+InitPlan(doc, k) == [doc |-> doc, k |-> k, ri |-> 1, xrefoff |-> 0, prevxref |-> 0, cuts |-> <<>>]
 =============================================================================
